@@ -985,7 +985,7 @@ def e(ctx):
     reached = {f for x in escs for f in x.via} | {x.func for x in escs}
     ctx.need("options.Options.decode" in reached, "the escape analysis did not enter Options.decode")
     for x in sorted(good, key=lambda x: (x.func, x.text)):
-        ctx.ob("escaping %s is UnparsableMessage" % x.cls.split(".")[-1], True, None, None, construct="%s: %s" % (x.func, x.text))
+        ctx.ob("raise site reachable from _decode_message raises (a subclass of) UnparsableMessage", True, None, None, construct="%s: %s" % (x.func, x.text))
     seen = set()
     for x in sorted(bad, key=lambda x: (x.func, x.text, x.cls)):
         if (x.func, x.text, x.cls) in seen:
@@ -1100,6 +1100,632 @@ def f(ctx):
     allw = [c_ for c_, _ in find("self._transport.write($x)", sfi.node)]
     ctx.ob("_send_message writes exactly _serialize(message) to the transport on every normal path", len(writes) == 1 and len(allw) == 1 and cfg.must_pass(cfg.entry, {cfg.loc1(writes[0])}) and cfg.loc1(writes[0]) not in cfg.reach({cfg.loc1(writes[0])}),
            sfi, allw[0] if allw else sfi.node, construct=None if allw else "_send_message")
+    pfi = prog.func(TCP + "_TCPPooling.send_message")
+    pp = params(pfi)
+    ctx.need(len(pp) >= 1 and not writes_to_name(pfi.node, pp[0]), "_TCPPooling.send_message(self, message, ...) signature changed")
+    outs = [c_ for c_, _ in find("%s.remote._send_message(%s)" % (pp[0], pp[0]), pfi.node)]
+    ctx.ob("outgoing messages are handed unchanged to the connection's _send_message", len(outs) >= 1, pfi, outs[0] if outs else pfi.node, construct=None if outs else "send_message")
 
 
-# %%MARK-E%%
+# ---------------------------------------------------------------------------
+# finite-domain evaluation of guards over the code value (E5)
+
+
+def _method_predicate(fi):
+    """The boolean expression a one-line predicate method returns
+    (`return <b>` or `return True if <b> else False`)."""
+    body = [s for s in fi.node.body if not (isinstance(s, ast.Expr) and isinstance(s.value, ast.Constant))]
+    if len(body) != 1 or not isinstance(body[0], ast.Return) or body[0].value is None:
+        return None
+    v = body[0].value
+    if isinstance(v, ast.IfExp) and isinstance(v.body, ast.Constant) and isinstance(v.orelse, ast.Constant):
+        if v.body.value is True and v.orelse.value is False:
+            return v.test
+        if v.body.value is False and v.orelse.value is True:
+            return ast.UnaryOp(op=ast.Not(), operand=v.test)
+        return None
+    return v
+
+
+def _code_sets(ctx):
+    """{method name: set of code values 0..255} extracted from numbers/codes.py."""
+    cache = getattr(ctx, "_c15_codesets", None)
+    if cache is not None:
+        return cache
+    out = {}
+    N = Normalizer()
+    for name in CODE_CLASSES:
+        fi = ctx.prog.func("numbers.codes.Code." + name)
+        t = _method_predicate(fi)
+        ctx.need(t is not None, "Code.%s is not a one-line predicate" % name)
+        vals = set()
+        for conj in N.dnf(t):
+            iv = norm.interval_of(conj, "self")
+            ctx.need(iv is not None, "Code.%s is not a comparison of the code with constants" % name)
+            lo, hi = max(iv[0], 0), min(iv[1], 255)
+            if lo <= hi:
+                vals |= set(range(int(lo), int(hi) + 1))
+        out[name] = (vals, fi)
+    ctx._c15_codesets = out
+    return out
+
+
+def _code_value(prog, module, e):
+    try:
+        v = norm.consteval(e)
+        if isinstance(v, int) and not isinstance(v, bool):
+            return v
+    except NormError:
+        pass
+    return _code_member(prog, module, e)
+
+
+def _eval_code_test(ctx, module, test, is_code, v):
+    """Three-valued value of an atomic test for code value v; None when the
+    test is not about the code."""
+    prog = ctx.prog
+    if isinstance(test, ast.Compare) and len(test.ops) == 1:
+        op, l, r = test.ops[0], test.left, test.comparators[0]
+        if is_code(r) and not is_code(l) and isinstance(op, (ast.Eq, ast.NotEq, ast.Is, ast.IsNot, ast.Lt, ast.LtE, ast.Gt, ast.GtE)):
+            flip = {ast.Lt: ast.Gt, ast.Gt: ast.Lt, ast.LtE: ast.GtE, ast.GtE: ast.LtE}
+            l, r, op = r, l, flip.get(type(op), type(op))()
+        if is_code(l):
+            if isinstance(op, (ast.In, ast.NotIn)) and isinstance(r, (ast.Tuple, ast.List, ast.Set)):
+                vals = [_code_value(prog, module, x) for x in r.elts]
+                if any(x is None for x in vals):
+                    raise AnalysisError("cannot evaluate %s" % _txt(test))
+                res = v in vals
+                return res if isinstance(op, ast.In) else not res
+            k = _code_value(prog, module, r)
+            if k is None:
+                raise AnalysisError("code compared with something that is not a code constant: %s" % _txt(test))
+            table = {ast.Eq: v == k, ast.Is: v == k, ast.NotEq: v != k, ast.IsNot: v != k, ast.Lt: v < k, ast.LtE: v <= k, ast.Gt: v > k, ast.GtE: v >= k}
+            if type(op) in table:
+                return table[type(op)]
+            raise AnalysisError("cannot evaluate %s" % _txt(test))
+    if isinstance(test, ast.Call) and isinstance(test.func, ast.Attribute) and is_code(test.func.value) and not test.args and not test.keywords:
+        sets = _code_sets(ctx)
+        if test.func.attr in sets:
+            return v in sets[test.func.attr][0]
+        raise AnalysisError("predicate %s of the code is outside the evaluator's vocabulary" % test.func.attr)
+    if is_code(test):
+        return v != 0
+    for x in ast.walk(test):
+        if isinstance(x, ast.expr) and is_code(x):
+            raise AnalysisError("test mentions the code in a form outside the evaluator's vocabulary: %s" % _txt(test))
+    return None
+
+
+def _site_domain(ctx, fi, cfg, nid, is_code, domain):
+    """(code values of `domain` for which the site is not excluded by a
+    dominating guard, [(guard, polarity)] not about the code)."""
+    alive = set(domain)
+    others = []
+    for g, pol, _ps in cfg.guards(nid):
+        if not isinstance(g, ast.expr):
+            others.append((g, pol))
+            continue
+        about = False
+        for v in list(alive):
+            r = _eval_code_test(ctx, fi.module, g, is_code, v)
+            if r is None:
+                break
+            about = True
+            if r != pol:
+                alive.discard(v)
+        if not about and _eval_code_test(ctx, fi.module, g, is_code, 0) is None:
+            others.append((g, pol))
+    return alive, others
+
+
+OPT_REPR = (1, 2, 3, 4, 6, 8, 9)  # representatives: 2 and 4 (the CSM options), other critical (odd), other elective (even)
+
+
+def _option_domain(ctx, others, loopvars):
+    """Evaluate guards about `<loopvar>.number` over OPT_REPR.  Returns
+    (alive representatives, remaining guards)."""
+    alive = set(OPT_REPR)
+    rest = []
+    for g, pol in others:
+        if isinstance(g, ast.For):
+            continue
+        handled = False
+        if isinstance(g, ast.Compare) and len(g.ops) == 1 and chain(g.left) in {lv + ".number" for lv in loopvars}:
+            op, r = g.ops[0], g.comparators[0]
+            try:
+                k = norm.consteval(r)
+            except NormError:
+                k = None
+            if isinstance(op, (ast.Eq, ast.NotEq)) and isinstance(k, int):
+                alive = {n for n in alive if ((n == k) if isinstance(op, ast.Eq) else (n != k)) == pol}
+                handled = True
+            elif isinstance(op, (ast.In, ast.NotIn)) and isinstance(k, (tuple, list, set)):
+                alive = {n for n in alive if ((n in k) if isinstance(op, ast.In) else (n not in k)) == pol}
+                handled = True
+        elif isinstance(g, ast.Call) and isinstance(g.func, ast.Attribute) and g.func.attr in ("is_critical", "is_elective") and chain(g.func.value) in {lv + ".number" for lv in loopvars} and not g.args:
+            crit = g.func.attr == "is_critical"
+            alive = {n for n in alive if ((n % 2 == 1) == crit) == pol}
+            handled = True
+        if not handled:
+            rest.append((g, pol))
+    return alive, rest
+
+
+def _loopvars(others, M):
+    """Names bound by enclosing `for X in <M>.opt.option_list()` loops."""
+    out = set()
+    for g, pol in others:
+        if isinstance(g, ast.For) and pol and isinstance(g.target, ast.Name) and match("%s.opt.option_list()" % M, g.iter) is not None:
+            out.add(g.target.id)
+    return out
+
+
+# ---------------------------------------------------------------------------
+# C15.g  signalling
+
+
+@R.clause("C15.g", "signalling: CSM options 2/4, unknown critical options and unknown 7.xx abort, Ping is answered by Pong with the same token, Release/Abort fail the pending requests and close")
+def g(ctx):
+    prog = ctx.prog
+    # premises: the code classes and option criticality mean what the RFCs say
+    for name, (vals, mfi) in sorted(_code_sets(ctx).items()):
+        ctx.ob("Code.%s holds exactly for the RFC 7252 section 12.1 / RFC 8323 range" % name, vals == CODE_CLASSES[name], mfi, mfi.node, construct="Code.%s" % name,
+               detail="holds for %s..%s (%d values)" % (min(vals) if vals else None, max(vals) if vals else None, len(vals)))
+    codecls = prog.cls("numbers.codes.Code")
+    for name, val in sorted(SIGNALLING.items()):
+        ctx.need(name in codecls.attrs, "Code.%s missing" % name)
+        try:
+            v = norm.consteval(codecls.attrs[name])
+        except NormError:
+            v = None
+        ctx.ob("Code.%s == %d (7.%02d)" % (name, val, val - 224), v == val, None, None, construct="Code.%s = %s" % (name, _txt(codecls.attrs[name])))
+    cfi = prog.func("numbers.optionnumbers.OptionNumber.is_critical")
+    t = _method_predicate(cfi)
+    crit_ok = False
+    if isinstance(t, ast.Compare) and len(t.ops) == 1 and isinstance(t.ops[0], (ast.Eq, ast.NotEq)):
+        try:
+            fl = norm.bitfields(t.left)
+            k = norm.consteval(t.comparators[0])
+            crit_ok = fl == [("self", 0, 1, 0)] and ((k == 1 and isinstance(t.ops[0], ast.Eq)) or (k == 0 and isinstance(t.ops[0], ast.NotEq)))
+        except NormError:
+            crit_ok = False
+    ctx.ob("OptionNumber.is_critical tests bit 0 of the option number", crit_ok, cfi, cfi.node, construct="OptionNumber.is_critical")
+
+    fi = prog.func("transports.rfc8323common.RFC8323Remote._process_signaling")
+    p = params(fi)
+    ctx.need(len(p) == 1 and not writes_to_name(fi.node, p[0]), "_process_signaling(self, msg) signature changed")
+    M = p[0]
+    cfg = cfg_of(fi)
+    dom = set(range(224, 256))
+    known = set(SIGNALLING.values())
+
+    def is_code(e):
+        return chain(e) == M + ".code"
+
+    def site(node):
+        nid = cfg.loc1(node)
+        alive, others = _site_domain(ctx, fi, cfg, nid, is_code, dom)
+        lvs = _loopvars(others, M)
+        nums, rest = _option_domain(ctx, others, lvs)
+        return nid, alive, lvs, nums, rest
+
+    # CSM options
+    settings = [(k, st) for k, st in stores_to(fi.node, "self._remote_settings", nested=False)]
+    ctx.floor("stores to _remote_settings in _process_signaling", len(settings), 3)
+    seen_keys = {}
+    for kind, st in settings:
+        nid, alive, lvs, nums, rest = site(st)
+        if kind == "assign":
+            v = st.value if isinstance(st, ast.Assign) else None
+            nonnull = isinstance(v, ast.Dict) or (isinstance(v, ast.Call) and chain(v.func) == "dict")
+            rest2 = [(g_, pol) for g_, pol in rest if not (Normalizer().cmp(g_) == ("is", "self._remote_settings", "None") and pol) and not (Normalizer().cmp(g_) == ("isnot", "self._remote_settings", "None") and not pol)]
+            ctx.ob("the peer's settings become non-None exactly on a CSM", nonnull and alive == {SIGNALLING["CSM"]} and not rest2 and not lvs, fi, st,
+                   detail="codes %s, further conditions %s" % (sorted(alive), [_txt(g_) for g_, _ in rest2]))
+        elif kind == "setitem" and isinstance(st, ast.Assign) and isinstance(st.targets[0], ast.Subscript):
+            key = st.targets[0].slice
+            kv = key.value if isinstance(key, ast.Constant) else None
+            seen_keys[kv] = (st, alive, lvs, nums, rest)
+        else:
+            ctx.ob("_remote_settings is only initialised and filled from CSM options", False, fi, st)
+    want_opts = {"max-message-size": 2, "block-wise-transfer": 4}
+    for key, num in sorted(want_opts.items()):
+        if key not in seen_keys:
+            ctx.ob("CSM option %d is recorded as %r" % (num, key), False, fi, fi.node, construct="_process_signaling")
+            continue
+        st, alive, lvs, nums, rest = seen_keys[key]
+        ctx.ob("CSM option %d (and only it, only in a CSM) is recorded as %r" % (num, key), alive == {SIGNALLING["CSM"]} and nums == {num} and len(lvs) == 1 and not rest, fi, st,
+               detail="codes %s, option numbers %s, further conditions %s" % (sorted(alive), sorted(nums), [_txt(g_) for g_, _ in rest]))
+        if num == 2 and len(lvs) == 1:
+            lv = next(iter(lvs))
+            b_ = match("int.from_bytes(%s.value, $*o, $**k)" % lv, st.value)
+            ok = b_ is not None and _bytes_order(st.value, 1) == "big"
+            ctx.ob("Max-Message-Size is read as a big-endian unsigned integer from the option value", ok, fi, st)
+    for key in seen_keys:
+        if key not in want_opts:
+            ctx.note("additional setting recorded: %r" % (key,))
+    # readers of the settings use the keys written
+    rcls = prog.cls("transports.rfc8323common.RFC8323Remote")
+    read = 0
+    for mname, mfi in sorted(rcls.methods.items()):
+        for call in calls_in(mfi.node):
+            if isinstance(call.func, ast.Attribute) and call.func.attr == "get" and call.args and "self._remote_settings" in {chain(x) for x in ast.walk(call.func.value) if isinstance(x, ast.Attribute)}:
+                k = call.args[0]
+                read += 1
+                ctx.ob("peer settings are read under a key that _process_signaling writes", isinstance(k, ast.Constant) and k.value in seen_keys, mfi, call)
+    ctx.floor("reads of the peer settings", read, 2)
+
+    # aborts
+    aborts = [c_ for c_, _ in find("self.abort($*a, $**k)", fi.node)]
+    ctx.floor("abort sites in _process_signaling", len(aborts), 3)
+    crit_cover = set()
+    unknown_cover = set()
+    crit_other = {n for n in OPT_REPR if n % 2 == 1}
+    for c_ in aborts:
+        nid, alive, lvs, nums, rest = site(c_)
+        if lvs:
+            csm_known = {2, 4} if SIGNALLING["CSM"] in alive else set()
+            ok = nums == crit_other and not rest
+            ctx.ob("abort inside the option loop fires exactly for critical options that are not understood", ok, fi, c_,
+                   detail="codes %s, option numbers (representatives) %s, further conditions %s" % (sorted(alive), sorted(nums), [_txt(g_) for g_, _ in rest]))
+            if ok:
+                crit_cover |= alive
+        else:
+            ok = alive == dom - known and not rest
+            ctx.ob("abort outside the option loop fires exactly for unknown signalling codes", ok, fi, c_, detail="codes %s, further conditions %s" % (sorted(alive), [_txt(g_) for g_, _ in rest]))
+            if ok:
+                unknown_cover |= alive
+    ctx.ob("an unknown critical option aborts in every known signalling message (CSM, Ping, Pong, Release, Abort)", known <= crit_cover, fi, aborts[0], detail="covered codes %s" % sorted(crit_cover), construct="_process_signaling: critical option handling")
+    ctx.ob("every unknown 7.xx code aborts", unknown_cover == dom - known, fi, aborts[-1], detail="covered codes %s" % sorted(unknown_cover), construct="_process_signaling: unknown code handling")
+
+    # Ping -> Pong
+    sends = [c_ for c_, _ in find("self._send_message($m)", fi.node)]
+    ctx.floor("_send_message sites in _process_signaling", len(sends), 1)
+    ping_cover = set()
+    for c_ in sends:
+        nid, alive, lvs, nums, rest = site(c_)
+        m = _resolve_at(fi, cfg, c_.args[0], nid)
+        code = tok = None
+        if _is_message_ctor(prog, fi, m):
+            kw = {k.arg: k.value for k in m.keywords}
+            code = _code_member(prog, fi.module, kw["code"]) if "code" in kw else None
+            tok = kw.get("token")
+        ok = alive == {SIGNALLING["PING"]} and not lvs and not rest
+        ctx.ob("the only message sent from signalling processing answers a Ping, unconditionally", ok, fi, c_, detail="codes %s, further conditions %s" % (sorted(alive), [_txt(g_) for g_, _ in rest]))
+        ctx.ob("the answer to Ping is a 7.03 Pong", code == SIGNALLING["PONG"], fi, c_, detail="message %s" % _txt(m))
+        ctx.ob("the Pong carries the token of the Ping", tok is not None and chain(tok) == M + ".token", fi, c_, detail="token = %s" % (_txt(tok) if tok is not None else None))
+        if ok:
+            ping_cover |= alive
+    ctx.ob("Ping is answered", SIGNALLING["PING"] in ping_cover, fi, sends[0], construct="_process_signaling: ping handling")
+
+    # Release / Abort
+    raises = [n for n in walk_no_nested(fi.node) if isinstance(n, ast.Raise)]
+    ctx.floor("raise sites in _process_signaling", len(raises), 2)
+    close_cover = set()
+    for r in raises:
+        nid, alive, lvs, nums, rest = site(r)
+        ex = r.exc
+        cls = prog.resolve_in_module(fi.module, chain(ex.func)) if isinstance(ex, ast.Call) and chain(ex.func) else None
+        inner = None
+        if isinstance(ex, ast.Call) and len(ex.args) == 1 and not ex.keywords and isinstance(ex.args[0], ast.Call) and chain(ex.args[0].func):
+            inner = prog.resolve_in_module(fi.module, chain(ex.args[0].func))
+        ok_cls = cls == "aiocoap.transports.rfc8323common.CloseConnection" and inner == "aiocoap.error.RemoteServerShutdown"
+        ctx.ob("signalling processing raises only CloseConnection(RemoteServerShutdown(...)) with the error as single argument", ok_cls, fi, r, detail="raises %s(%s)" % (cls, inner))
+        ok = alive <= {SIGNALLING["RELEASE"], SIGNALLING["ABORT"]} and bool(alive) and not lvs and not rest
+        ctx.ob("the connection is given up only for Release and Abort, unconditionally", ok, fi, r, detail="codes %s, further conditions %s" % (sorted(alive), [_txt(g_) for g_, _ in rest]))
+        if ok and ok_cls:
+            close_cover |= alive
+    ctx.ob("both Release and Abort from the peer close the connection with RemoteServerShutdown", close_cover == {SIGNALLING["RELEASE"], SIGNALLING["ABORT"]}, fi, raises[0], detail="covered codes %s" % sorted(close_cover),
+           construct="_process_signaling: release/abort handling")
+    for sub, base in (("aiocoap.error.RemoteServerShutdown", "aiocoap.error.NetworkError"), ("aiocoap.error.NetworkError", "aiocoap.error.Error")):
+        prog.cls(sub[len("aiocoap."):])
+        ctx.ob("%s derives from %s" % (sub.split(".")[-1], base.split(".")[-1]), prog.is_subclass(sub, base), None, None, construct="class %s" % sub.split(".")[-1])
+    cc = prog.cls("transports.rfc8323common.CloseConnection")
+    ctx.ob("CloseConnection is a plain Exception subclass (its .args[0] is the wrapped error)", prog.is_subclass(cc.qn, "Exception") and "__init__" not in cc.methods, None, None, construct="class CloseConnection")
+
+    # data_received forwards the wrapped error and closes
+    L = _frame_loop(ctx)
+    dfi, dcfg = L.fi, L.cfg
+    ctx.floor("_process_signaling sites in data_received", len(L.signalling), 1)
+    for call in L.signalling:
+        nid = dcfg.loc1(call)
+        ctx.ob("the message given to signalling processing is the one just decoded", len(call.args) == 1 and isinstance(_def_stmt(dfi, dcfg, call.args[0], nid), ast.Assign) and _def_stmt(dfi, dcfg, call.args[0], nid).value is L.dec, dfi, call)
+        hs = [h for h, lab in dcfg.succ[nid] if lab == "exc" and dcfg.nodes[h].kind == "handler"]
+        good = []
+        for h in hs:
+            hn = dcfg.nodes[h].ast
+            types = [] if hn.type is None else (hn.type.elts if isinstance(hn.type, ast.Tuple) else [hn.type])
+            if any(chain(t_) and prog.resolve_in_module(dfi.module, chain(t_)) == cc.qn for t_ in types):
+                good.append(h)
+        ctx.ob("CloseConnection from signalling processing is caught in data_received", len(good) == 1, dfi, call)
+        for h in good:
+            hn = dcfg.nodes[h].ast
+            de = [c_ for c_ in calls_in(dfi.node) if isinstance(c_.func, ast.Attribute) and c_.func.attr == "_dispatch_error" and hn.name is not None
+                  and len(c_.args) == 2 and chain(c_.args[0]) == "self" and match("%s.args[0]" % hn.name, c_.args[1]) is not None]
+            cl = [c_ for c_, _ in find("self._transport.close()", dfi.node)]
+            stop = {L.E, dcfg.exit}
+            ok_de = bool(de) and all(dcfg.must_pass(h, {dcfg.loc1(c_) for c_ in de}, to=t_) for t_ in stop)
+            ok_cl = bool(cl) and all(dcfg.must_pass(h, {dcfg.loc1(c_) for c_ in cl}, to=t_) for t_ in stop)
+            ctx.ob("on Release/Abort the wrapped RemoteServerShutdown is forwarded to _dispatch_error for this connection", ok_de, dfi, hn, construct="except %s" % _txt(hn.type))
+            ctx.ob("on Release/Abort the transport is closed", ok_cl, dfi, hn, construct="except %s: close" % _txt(hn.type))
+    pfi = prog.func(TCP + "_TCPPooling._dispatch_error")
+    pp = params(pfi)
+    ctx.need(len(pp) == 2 and not writes_to_name(pfi.node, pp[0]) and not writes_to_name(pfi.node, pp[1]), "_dispatch_error(self, connection, exc) signature changed")
+    pcfg = cfg_of(pfi)
+    fw = [c_ for c_, _ in find("self._tokenmanager.dispatch_error(%s, %s)" % (pp[1], pp[0]), pfi.node)]
+    ctx.ob("_dispatch_error hands (error, connection) to the token manager", len(fw) >= 1, pfi, pfi.node, construct="_dispatch_error")
+    for c_ in fw:
+        nid = pcfg.loc1(c_)
+        extra = []
+        for g_, pol, ps in pcfg.guards(nid):
+            nf = Normalizer().cmp(g_) if isinstance(g_, ast.expr) else None
+            nf = nf if pol else (Normalizer().negate(nf) if nf else None)
+            if nf != ("isnot", "self._tokenmanager", "None"):
+                extra.append(_txt(g_) if isinstance(g_, ast.expr) else type(g_).__name__)
+        ctx.ob("the error reaches the token manager whenever one is attached", not extra, pfi, c_, detail="further conditions: %s" % extra)
+    allfw = {pcfg.loc1(c_) for c_ in fw}
+    for n in pcfg.nodes:
+        if n.kind in ("T", "F") and isinstance(n.ast, ast.expr):
+            nf = Normalizer().cmp(n.ast)
+            nf = nf if n.kind == "T" else Normalizer().negate(nf)
+            if nf == ("isnot", "self._tokenmanager", "None"):
+                ctx.ob("with a token manager attached every normal path forwards the error", pcfg.must_pass(n.id, allfw), pfi, n.ast)
+
+    # our own CSM announces the limit the size gate enforces
+    ifi = prog.func("transports.rfc8323common.RFC8323Remote._send_initial_csm")
+    icfg = cfg_of(ifi)
+    isends = [c_ for c_, _ in find("self._send_message($m)", ifi.node)]
+    ctx.floor("_send_message sites in _send_initial_csm", len(isends), 1)
+    for c_ in isends:
+        nid = icfg.loc1(c_)
+        a0 = c_.args[0]
+        m = _resolve_at(ifi, icfg, a0, nid)
+        code = None
+        if _is_message_ctor(prog, ifi, m):
+            kw = {k.arg: k.value for k in m.keywords}
+            code = _code_member(prog, ifi.module, kw["code"]) if "code" in kw else None
+        ctx.ob("the initial message is a 7.01 CSM", code == SIGNALLING["CSM"], ifi, c_, detail="message %s" % _txt(m))
+        found = False
+        if isinstance(a0, ast.Name):
+            for ac, b_ in find("%s.opt.add_option($o)" % a0.id, ifi.node):
+                an = icfg.loc1(ac)
+                o = _resolve_at(ifi, icfg, b_["o"], an)
+                ob_ = match("optiontypes.UintOption(2, self._my_max_message_size)", o)
+                if ob_ is not None and icfg.dominates(an, nid):
+                    found = True
+        ctx.ob("the CSM announces option 2 Max-Message-Size = self._my_max_message_size (the limit the size gate enforces)", found, ifi, c_)
+    mfi = prog.func(TCP + "TcpConnection.connection_made")
+    mcfg = cfg_of(mfi)
+    ic = [mcfg.loc1(c_) for c_, _ in find("self._send_initial_csm()", mfi.node)]
+    ctx.ob("connection_made sends the CSM on every normal path", bool(ic) and mcfg.must_pass(mcfg.entry, ic), mfi, mfi.node, construct="connection_made")
+
+
+# ---------------------------------------------------------------------------
+# C15.h  dispatch table: data_received (after framing) composed with _dispatch_incoming
+
+
+EFFECT_NAMES = ("process_request", "process_response", "_process_signaling", "abort")
+
+
+def _walk_effects(ctx, fi, cfg, start, stop, is_msg, v, csm, callees, depth=0):
+    """All effect sequences on feasible non-exceptional paths from `start`
+    until a node in `stop` or the normal exit, for code value v and
+    CSM-seen = csm.  -> set of tuples of (effect name, fi, call node)."""
+    prog = ctx.prog
+
+    results = set()
+    seen = set()
+    todo = [(start, ())]
+    while todo:
+        nid, eff = todo.pop()
+        if (nid, eff) in seen:
+            continue
+        seen.add((nid, eff))
+        if len(seen) > 4000 or len(eff) > 6:
+            raise AnalysisError("dispatch evaluation does not converge in %s" % fi.short)
+        node = cfg.nodes[nid]
+        if nid in stop or nid == cfg.exit:
+            results.add(eff)
+            continue
+
+        def is_code(e, nid=nid):
+            return isinstance(e, ast.Attribute) and e.attr == "code" and is_msg(e.value, nid)
+
+        branches = [(eff, None)]
+        if node.kind in ("stmt", "return", "with", "for") and node.ast is not None:
+            root = node.ast.iter if node.kind == "for" else node.ast
+            if node.kind == "with":
+                root = ast.Tuple(elts=[it.context_expr for it in node.ast.items], ctx=ast.Load())
+            for call in [x for x in walk_no_nested(root) if isinstance(x, ast.Call)]:
+                nm = call.func.attr if isinstance(call.func, ast.Attribute) else (call.func.id if isinstance(call.func, ast.Name) else None)
+                passes_msg = any(is_msg(a_, nid) for a_ in call.args) or any(is_msg(k.value, nid) for k in call.keywords)
+                if nm in EFFECT_NAMES and (passes_msg or nm == "abort"):
+                    branches = [(e_ + ((nm, fi, call),), None) for e_, _ in branches]
+                elif nm in callees and passes_msg:
+                    cfi = callees[nm]
+                    ctx.need(depth < 2, "dispatch nesting deeper than expected")
+                    cp = params(cfi)
+                    idx = [i for i, a_ in enumerate(call.args) if is_msg(a_, nid)]
+                    ctx.need(len(idx) == 1 and idx[0] < len(cp) and not call.keywords, "cannot map the message argument of %s" % _txt(call))
+                    pname = cp[idx[0]]
+                    ctx.need(not writes_to_name(cfi.node, pname), "%s rebinds its message parameter" % cfi.short)
+                    ccfg = cfg_of(cfi)
+                    sub = _walk_effects(ctx, cfi, ccfg, ccfg.entry, set(), lambda e_, _n, pname=pname: isinstance(e_, ast.Name) and e_.id == pname, v, csm, callees, depth + 1)
+                    branches = [(e_ + s, None) for e_, _ in branches for s in sub]
+                elif passes_msg and not is_log_call(call) and nm not in ("debug", "info", "warning"):
+                    raise AnalysisError("the message is handed to %s, which the dispatch evaluation does not know" % _txt(call.func))
+        for eff2, _ in branches:
+            if node.kind == "test":
+                r = _eval_code_test(ctx, fi.module, node.ast, is_code, v)
+                if r is None:
+                    try:
+                        nf = Normalizer().cmp(node.ast)
+                    except NormError:
+                        nf = None
+                    if nf in (("is", "self._remote_settings", "None"), ("isnot", "self._remote_settings", "None")):
+                        r = (not csm) if nf[0] == "is" else csm
+                    elif nf == ("truth", "self._remote_settings") and not csm:
+                        r = False
+                for d, lab in cfg.succ[nid]:
+                    if lab == "exc":
+                        continue
+                    if r is None or (lab == "T") == r:
+                        todo.append((d, eff2))
+            else:
+                for d, lab in cfg.succ[nid]:
+                    if lab != "exc":
+                        todo.append((d, eff2))
+    return results
+
+
+CLASS_ROWS = [
+    ("EMPTY", [0]),
+    ("request", list(range(1, 32))),
+    ("response", list(range(64, 192))),
+    ("signalling", list(range(224, 256))),
+    ("other (reserved classes)", list(range(32, 64)) + list(range(192, 224))),
+]
+
+
+def _allowed(cls, csm):
+    """Reference dispatch table: predicate on the tuple of effect names of a path."""
+    if cls == "signalling":
+        return lambda names: names == ("_process_signaling",), "signalling processing only"
+    if not csm:
+        if cls == "EMPTY":
+            return lambda names: names in ((), ("abort",)), "nothing (or abort)"
+        return lambda names: names == ("abort",), "abort only"
+    if cls == "EMPTY":
+        return lambda names: names == (), "no effect at all"
+    if cls == "request":
+        return lambda names: names == ("process_request",), "process_request exactly once"
+    if cls == "response":
+        return lambda names: names == ("process_response",), "process_response exactly once"
+    return lambda names: names in ((), ("abort",), ("process_request",)), "never response processing, never signalling processing"
+
+
+@R.clause("C15.h", "dispatch by code class for every code value 0..255 x CSM seen / not seen; empty messages have no effect")
+def h(ctx):
+    prog = ctx.prog
+    L = _frame_loop(ctx)
+    fi, cfg = L.fi, L.cfg
+    for name, (vals, mfi) in sorted(_code_sets(ctx).items()):
+        ctx.need(vals == CODE_CLASSES[name], "Code.%s does not have its RFC meaning (see C15.g); the dispatch table is not evaluated" % name)
+    pfi = prog.func(TCP + "_TCPPooling._dispatch_incoming")
+    ctx.need(is_plain_sync(pfi), "_dispatch_incoming is not a plain synchronous function")
+    callees = {"_dispatch_incoming": pfi}
+
+    def is_msg(e, nid):
+        if not isinstance(e, ast.Name):
+            return False
+        # the local holding the decoded message: its reaching definition at
+        # the point of use is the assignment from _decode_message
+        cands = [w for w in writes_to_name(fi.node, e.id) if isinstance(w, ast.Assign) and w.value is L.dec]
+        if not cands:
+            return False
+        if nid is None:
+            return True
+        w = _def_stmt(fi, cfg, e, nid)
+        return w is not None and w in cands
+
+    # tests on `<msg>.code` must see the decoded message, not the raw frame
+    starts = [d for d, lab in cfg.succ[L.DEC] if lab != "exc"]
+    ctx.need(len(starts) >= 1, "no normal successor of the decoding statement")
+    exhaustive = 0
+    table = {}
+    for cls, values in CLASS_ROWS:
+        for csm in (True, False):
+            pred, text = _allowed(cls, csm)
+            bad = None
+            outcomes = set()
+            for v in values:
+                effs = set()
+                for s in starts:
+                    effs |= _walk_effects(ctx, fi, cfg, s, {L.E}, is_msg, v, csm, callees)
+                exhaustive += 1
+                ctx.need(effs, "no feasible path for code %d" % v)
+                for eff in sorted(effs, key=lambda t: [x[0] for x in t]):
+                    names = tuple(x[0] for x in eff)
+                    outcomes.add(names)
+                    if not pred(names) and bad is None:
+                        bad = (v, eff, names)
+            table["%s / CSM %s" % (cls, "seen" if csm else "not seen")] = sorted(" + ".join(n) if n else "-" for n in outcomes)
+            desc = "code class %s, peer CSM %s: %s" % (cls, "received" if csm else "not yet received", text)
+            if bad is None:
+                ctx.ob(desc, True, fi, L.dec, construct="dispatch row %s/%s" % (cls, "csm" if csm else "no-csm"))
+            else:
+                v, eff, names = bad
+                # pin to the first effect that the reference table does not allow
+                culprit = None
+                for i in range(len(eff)):
+                    if pred(names[:i] + names[i + 1:]):
+                        culprit = eff[i]
+                        break
+                if culprit is None and eff:
+                    culprit = eff[-1]
+                if culprit is not None:
+                    ctx.ob(desc, False, culprit[1], culprit[2], detail="a message with code %d takes a path with effects %s" % (v, list(names) or "none"))
+                else:
+                    ctx.ob(desc, False, fi, L.dec, detail="a message with code %d takes a path with no effect" % v, construct="dispatch row %s/%s" % (cls, "csm" if csm else "no-csm"))
+    ctx.extra["exhaustive"] = True
+    ctx.extra["dispatch_table"] = table
+    ctx.extra["dispatch_valuations_evaluated"] = exhaustive
+
+
+# ---------------------------------------------------------------------------
+# seeded faults (sensitivity self-test)
+
+F_OPT = "aiocoap/options.py"
+
+# C15.a
+R.seed("C15.a", F_TCP, "    elif length < 269:\n", "    elif length < 268:\n", "writer breakpoint 269 -> 268")
+R.seed("C15.a", F_TCP, "            offset = 269\n", "            offset = 268\n", "reader offset 269 -> 268")
+R.seed("C15.a", F_TCP, "            extlen = 4\n", "            extlen = 2\n", "reader width 4 -> 2")
+R.seed("C15.a", F_TCP, "(length - 65805).to_bytes(4, \"big\")", "(length - 65805).to_bytes(2, \"big\")", "writer width 4 -> 2")
+R.seed("C15.a", F_TCP, "    elif length < 65805:\n", "    elif length <= 65805:\n", "writer breakpoint 65805 off by one")
+R.seed("C15.a", F_TCP, "int.from_bytes(data[1 : 1 + extlen], \"big\") + offset", "int.from_bytes(data[1 : 1 + extlen], \"little\") + offset", "reader byte order")
+R.seed("C15.a", F_TCP, "        if len(data) < extlen + 1:\n", "        if len(data) < extlen:\n", "size computed from a truncated extension")
+R.seed("C15.a", F_TCP, "        tokenoffset = 2 + extlen\n", "        tokenoffset = 1 + extlen\n", "header size without the code byte")
+R.seed("C15.a", F_TCP, "    tkl = data[0] & 0x0F\n", "    tkl = data[0] & 0x07\n", "token length read from 3 bits")
+# C15.b
+R.seed("C15.b", F_TCP, "    if tkl > 8:\n        raise error.UnparsableMessage", "    if tkl > 15:\n        raise error.UnparsableMessage", "reader accepts token lengths 9..15")
+R.seed("C15.b", F_TCP, "    if tkl > 8:\n        raise ValueError", "    if tkl > 15:\n        raise ValueError", "writer accepts token lengths 9..15")
+R.seed("C15.b", F_TCP, "        data_list += [b\"\\xff\", msg.payload]\n", "        data_list += [msg.payload]\n", "payload marker missing")
+R.seed("C15.b", F_TCP, "    if msg.payload:\n        data_list +=", "    if msg.payload is not None:\n        data_list +=", "marker written for an empty payload")
+R.seed("C15.b", F_TCP, "bytes(((length << 4) | tkl,))", "bytes(((tkl << 4) | length,))", "nibbles swapped in byte 0")
+R.seed("C15.b", F_TCP, "    length, extlen = _encode_length(len(data))\n", "    length, extlen = _encode_length(len(data) + len(msg.token))\n", "Len counts the token")
+R.seed("C15.b", F_TCP, "    code = data[tokenoffset - 1]\n", "    code = data[tokenoffset]\n", "code read one byte late")
+R.seed("C15.b", F_TCP, "    token = data[tokenoffset : tokenoffset + tkl]\n", "    token = data[tokenoffset : tokenoffset + 8]\n", "token slice ignores tkl")
+R.seed("C15.b", F_TCP, "    msg.payload = msg.opt.decode(data[tokenoffset + tkl :])\n", "    msg.payload = msg.opt.decode(data[tokenoffset:])\n", "token parsed as options")
+# C15.c
+R.seed("C15.c", F_TCP, "            self._spool = self._spool[msglen:]\n", "            self._spool = self._spool[msglen + 1 :]\n", "spool advanced by one byte too many")
+R.seed("C15.c", F_TCP, "            msglen = sum(msglen)\n", "            msglen = msglen[0] + msglen[2]\n", "token length not counted")
+R.seed("C15.c", F_TCP, "            if msglen > len(self._spool):\n                break\n", "            if msglen >= len(self._spool):\n                break\n", "complete frame kept waiting")
+R.seed("C15.c", F_TCP, "            if msglen > len(self._spool):\n                break\n", "            if msglen > len(self._spool):\n                continue\n", "busy loop on an incomplete frame")
+R.seed("C15.c", F_TCP, "            if msglen > len(self._spool):\n                break\n", "", "frame cut before it is complete")
+R.seed("C15.c", F_TCP, "            self._spool = self._spool[msglen:]\n\n            if msg.code.is_signalling():", "            if msg.code.is_signalling():", "spool never advanced")
+R.seed("C15.c", F_TCP, "        self._spool += data\n", "        self._spool = data\n", "earlier partial frame dropped")
+# C15.d
+R.seed("C15.d", F_TCP, "            if msglen > self._my_max_message_size:\n                self.abort(\"Overly large message announced\")\n                return\n", "", "size gate dropped")
+R.seed("C15.d", F_TCP, "                self.abort(\"Overly large message announced\")\n                return\n", "                self.abort(\"Overly large message announced\")\n", "oversized frame still processed after Abort")
+R.seed("C15.d", F_TCP, "            if self._remote_settings is None:\n                self.abort(\"No CSM received\")\n                return\n", "", "CSM gate dropped")
+R.seed("C15.d", F_TCP, "            except error.UnparsableMessage:\n", "            except error.BadRequest:\n", "parse errors not caught")
+R.seed("C15.d", F_TCP, "                self.abort(\"Failed to parse message\")\n                return\n", "                return\n", "unparsable frame silently dropped")
+# C15.e
+R.seed("C15.e", F_TCP, "        raise error.UnparsableMessage(\"Overly long token\")", "        raise ValueError(\"Overly long token\")", "foreign exception from _decode_message")
+R.seed("C15.e", F_OPT, "                raise UnparsableMessage(\"Option announced but absent\")", "                raise IndexError(\"Option announced but absent\")", "foreign exception from option parsing")
+# C15.f
+R.seed("C15.f", F_TCP, "            self._send_message(abort_msg)\n            self._transport.close()\n", "            self._transport.close()\n            self._send_message(abort_msg)\n", "close() before send")
+R.seed("C15.f", F_TCP, "            self._send_message(abort_msg)\n            self._transport.close()\n", "            self._send_message(abort_msg)\n", "connection left open after Abort")
+R.seed("C15.f", F_COMMON, "        abort_msg = Message(code=ABORT)\n", "        abort_msg = Message(code=RELEASE)\n", "Release sent instead of Abort")
+# C15.g
+R.seed("C15.g", F_COMMON, "                pong = Message(code=PONG, token=msg.token)\n", "                pong = Message(code=PONG)\n", "Pong without token")
+R.seed("C15.g", F_COMMON, "                if opt.number == 2:\n", "                if opt.number == 3:\n", "wrong CSM option number")
+R.seed("C15.g", F_COMMON, "                elif opt.number.is_critical():\n                    self.abort(\"Option not supported\", bad_csm_option=opt.number)\n", "                elif opt.number.is_critical():\n                    pass\n", "unknown critical CSM option ignored")
+R.seed("C15.g", F_COMMON, "                    error.RemoteServerShutdown(\"Peer released connection\")", "                    error.LibraryShutdown(\"Peer released connection\")", "Release reported with a non-network error")
+R.seed("C15.g", F_COMMON, "            self.abort(\"Unknown signalling code\")\n", "            pass\n", "unknown 7.xx ignored")
+R.seed("C15.g", F_TCP, "                    self._ctx._dispatch_error(self, e.args[0])\n                    self._transport.close()\n", "                    self._transport.close()\n", "pending requests not failed on Release/Abort")
+R.seed("C15.g", F_TCP, "        self._tokenmanager.dispatch_error(exc, connection)\n", "        self._tokenmanager.dispatch_error(connection, exc)\n", "error and connection swapped")
+# C15.h
+R.seed("C15.h", F_TCP, "        if msg.code.is_response():\n            self._tokenmanager.process_response(msg)", "        if msg.code.is_request():\n            self._tokenmanager.process_response(msg)", "requests and responses swapped")
+R.seed("C15.h", F_TCP, "            if msg.code.is_signalling():\n", "            if msg.code >= 225:\n", "7.00 treated as a request")
+R.seed("C15.h", F_TCP, "(RFC 8323 Section 3.4)\n            return\n", "(RFC 8323 Section 3.4)\n            pass\n", "empty message falls through (the repaired F5 re-introduced; skipped while the tree is unrepaired)")
